@@ -4,9 +4,10 @@
    and a [fmts] output), built from M-IV (Codec/InlVec.v), the size pass of M-CODEC
    (Codec/CodecDefs.v) and prepare_write of M-BQ (Queue/BQDefs.v).
 
-   What is proved: for ALL inputs, the four *modelled* allocation sources (thread-context creation,
+   What is proved: for ALL inputs, the *modelled* allocation sources (thread-context creation,
    InlinedVector growth, unbounded-queue node allocation / shrink, the argument's own copy
-   constructor / fs::path::string()) are silent in a steady-state call, and only Direct arguments
+   constructor / fs::path::string(), and - found by the runtime part, then modelled - the
+   temporary std::pair a map codec makes of every element) are silent in a steady-state call, and only Direct arguments
    are formatted in a frontend step.  What is NOT proved: that the real code has no other
    allocation source (a temporary inside a codec, inside libfmt, inside a macro).  That part is
    sampled on the real binary by harness/alloc.cpp (props/c11.py). *)
@@ -48,12 +49,15 @@ Print Assumptions C11_tie_code_shape.
      -> the statement pushes at most INLINE_CAP (= 12) lengths into the size cache
      -> its encoded size (header + arguments + level) is granted by the current queue buffer
      -> no argument type contains a not trivially copyable deferred type or a filesystem path
+     -> every std::map / unordered_map inside the argument types has arithmetic key and mapped type, or a
+        key and a mapped type whose copies cannot allocate  (this hypothesis is NOT in the property:
+        the code copies every element of other maps at the call site, see C11_steady_no_alloc_refuted_map)
      -> the call allocates nothing (modelled sources) and the statement is enqueued. *)
 Theorem C11_steady_no_alloc : forall cf s ts vs dyn,
   reachable cf s -> t_reg s = true ->
   N.of_nat (stmt_cached ts vs) <= INLINE_CAP ->
   fits (t_node s) (stmt_total ts vs dyn) = true ->
-  forallb no_excluded ts = true ->
+  forallb no_excluded ts = true -> forallb map_ok ts = true ->
   allocs (snd (log_step cf s ts vs dyn)) = [] /\ res (snd (log_step cf s ts vs dyn)) = LEnqueued.
 Proof. exact steady_no_alloc_reachable. Qed.
 Print Assumptions C11_steady_no_alloc.
@@ -64,11 +68,25 @@ Theorem C11_steady_no_alloc_capacity : forall cf s ts vs dyn,
   reachable cf s -> t_reg s = true ->
   N.of_nat (stmt_cached ts vs) <= iv_cap (t_cache s) ->
   fits (t_node s) (stmt_total ts vs dyn) = true ->
-  forallb no_excluded ts = true ->
+  forallb no_excluded ts = true -> forallb map_ok ts = true ->
   allocs (snd (log_step cf s ts vs dyn)) = [] /\ res (snd (log_step cf s ts vs dyn)) = LEnqueued /\
   iv_cap (t_cache (fst (log_step cf s ts vs dyn))) = iv_cap (t_cache s).
 Proof. exact (fun cf s ts vs dyn Hre Hr => steady_no_alloc_cap cf s ts vs dyn Hr (reachable_wf cf s Hre)). Qed.
 Print Assumptions C11_steady_no_alloc_capacity.
+
+(* ------------------------------------------------------------------ refutation (finding C11-F1) *)
+(* the property as stated ("standard containers ... of those") is false of the faithful model:
+   std::map<uint32_t, std::string> with a 16-character string, registered thread, nothing cached,
+   fits, listed kinds only - and the call copies the string twice into a temporary std::pair.
+   Replayed on the real code by corpus/C11/f1_map_string.case. *)
+Theorem C11_steady_no_alloc_refuted_map :
+  let s := after_pre ex_bounded in
+  reachable ex_bounded s /\ t_reg s = true /\ wt_zip (map wt rf11_ts) rf11_vs /\
+  stmt_cached rf11_ts rf11_vs = 0%nat /\ fits (t_node s) (stmt_total rf11_ts rf11_vs false) = true /\
+  forallb no_excluded rf11_ts = true /\ forallb map_ok rf11_ts = false /\
+  allocs (snd (log_step ex_bounded s rf11_ts rf11_vs false)) = [ATempCopy Str (VB (repeat 97 16)); ATempCopy Str (VB (repeat 97 16))].
+Proof. exact steady_no_alloc_refuted_map. Qed.
+Print Assumptions C11_steady_no_alloc_refuted_map.
 
 (* "registered" is what the first log call or preallocate() establishes, for good; the size the
    queue is asked for is the statement size of C04 (reserved = written = consumed) *)
@@ -202,14 +220,15 @@ Proof. exact (conj iv_clear_keeps_capacity_thm iv_cap_monotone). Qed.
 Print Assumptions iv_clear_keeps_capacity.
 
 (* ------------------------------------------------------------------ non-vacuity *)
-(* a reachable, registered state and a ten-argument nested statement (C04's example without its
-   non-trivially-copyable argument, with a dynamic level, 10 cached lengths, a direct-format
-   element) satisfy every hypothesis of C11_steady_no_alloc *)
+(* a reachable, registered state and a well-typed ten-argument nested statement (with a dynamic level,
+   10 cached lengths, a 40-byte std::string, a map with copy-free key and mapped type, a
+   direct-format element) satisfy every hypothesis of C11_steady_no_alloc *)
 Example C11_nonvacuous :
   reachable ex_unbounded (after_pre ex_unbounded) /\ t_reg (after_pre ex_unbounded) = true /\
+  wt_zip (map wt ex11_ts) ex11_vs /\
   stmt_cached ex11_ts ex11_vs = 10%nat /\
   fits (t_node (after_pre ex_unbounded)) (stmt_total ex11_ts ex11_vs true) = true /\
-  forallb no_excluded ex11_ts = true /\ existsb has_direct ex11_ts = true /\
+  forallb no_excluded ex11_ts = true /\ forallb map_ok ex11_ts = true /\ existsb has_direct ex11_ts = true /\
   allocs (snd (log_step ex_unbounded (after_pre ex_unbounded) ex11_ts ex11_vs true)) = [].
 Proof. exact steady_no_alloc_nonvacuous. Qed.
 
